@@ -10,6 +10,10 @@ Local Arguments Z.sub : simpl never.
 Local Arguments Z.leb : simpl never.
 Local Arguments Z.ltb : simpl never.
 Local Arguments Z.eqb : simpl never.
+Local Arguments Z.le : simpl never.
+Local Arguments Z.lt : simpl never.
+Local Arguments Z.of_nat : simpl never.
+Local Arguments Z.to_nat : simpl never.
 Local Arguments target_of : simpl never.
 Local Arguments eval_time : simpl never.
 Local Arguments advance_result : simpl never.
@@ -173,7 +177,7 @@ Definition phase_inv (c : cfg) (s : st) : Prop :=
       (cut s = false -> forall p, In p (pend s) -> t <= p) /\ (cut s = true -> t = c_end c)
   | PEvalPre t => t = ev s /\ t < c_end c /\ cycles s <> [] /\ (forall p, In p (pend s) -> t <= p) /\ cut s = false
   | PEval t => t = ev s /\ t < c_end c /\ cycles s <> [] /\ (forall p, In p (pend s) -> t <= p) /\ cut s = false
-  | PDone => True
+  | PDone => stop s = false -> cut s = false -> forall p, In p (pend s) -> c_end c <= p
   end.
 
 Definition Inv (c : cfg) (s : st) : Prop :=
@@ -250,7 +254,7 @@ Proof.
       destruct stop0; inv_some Hs. inv_some H. simpl. destruct HP as (Hp & He & Hcut).
       unfold adv_inv; simpl. repeat split; auto.
     + (* PTop, LExit *)
-      destruct stop0; inv_some Hs. inv_some H. simpl. auto.
+      destruct stop0; inv_some Hs. inv_some H. simpl. repeat split; auto. discriminate.
     + (* PRead, LRead *)
       destruct (wall0 <=? w); inv_some Hs. inv_some H. simpl. unfold adv_inv, lowb in *; simpl in *.
       repeat split; try tauto. discriminate.
@@ -296,8 +300,10 @@ Proof.
       assert (t < c_end c) by lia.
       assert (cut0 = false) by (destruct cut0; auto; specialize (Hcc eq_refl); lia).
       subst cut0. repeat split; auto. rewrite Hcy; discriminate.
-    + (* PAdv, LExit *)
-      match type of Hs with (if ?b then _ else _) = _ => destruct b end; inv_some Hs. inv_some H. simpl. auto.
+    + (* PAdv, LExit: without a stop request the end has been reached, and no pending time was passed *)
+      match type of Hs with (if ?b then _ else _) = _ => destruct b eqn:Ebrk end; inv_some Hs. inv_some H. simpl.
+      destruct HP as (Hev & _ & Hpc & _). repeat split; auto.
+      intros Hst Hcu p Hin. subst stop0. specialize (Hpc Hcu p Hin). simpl in Ebrk. unfold MAX_DT in *. lia.
     + (* PEvalPre, LNode *)
       destruct push0; inv_some Hs. inv_some H. simpl. tauto.
     + (* PEvalPre, LPushNode *)
@@ -330,3 +336,130 @@ Definition run (c : cfg) (w0 : Z) (ls : list label) (s : st) : Prop := exec c (i
 
 Lemma run_Inv : forall c w0 ls s, wfc c -> run c w0 ls s -> Inv c s.
 Proof. intros; eapply Inv_exec; eauto using Inv_init. Qed.
+
+(* ================================================================== *)
+(* The recorded advances strictly increase. *)
+Lemma chain_forall : forall c l, chain c l -> Forall (cyc_ok c) l.
+Proof. induction l as [|a r IH]; simpl; intros H; constructor; tauto. Qed.
+
+Fixpoint decreasing (l : list Z) : Prop :=
+  match l with
+  | a :: r => match r with b :: _ => b < a | [] => True end /\ decreasing r
+  | [] => True
+  end.
+
+Lemma chain_decreasing : forall c l, chain c l ->
+  decreasing (map ct l) /\ Forall (fun a => c_start c <= ct a) l.
+Proof.
+  induction l as [|a r IH]; simpl; intros H; [split; auto|].
+  destruct H as (_ & Hr & Hc). destruct (IH Hc) as (Hd & Hf). destruct r as [|b r'].
+  - simpl. repeat split; auto. constructor; [lia|auto].
+  - simpl in *. repeat split; try tauto; try lia. constructor; auto. inversion Hf; subst. lia.
+Qed.
+
+(* ================================================================== *)
+(* Second invariant: the consecutive-immediate-cycle counter counts what it says,
+   every evaluated cycle obeys the cycle time rule exactly, and the drain cut is
+   taken only after MAX_DRAIN consecutive smallest steps with the wall clock past end. *)
+Definition exact (a : cyc) : Prop := ct a = eval_time (ctgt a) (cw a) (cprev a).
+Definition step1 (a : cyc) : Prop := ct a = cprev a + MIN_TD.
+Definition run1 (n : Z) (l : list cyc) : Prop :=
+  0 <= n /\ n <= Z.of_nat (length l) /\ Forall step1 (firstn (Z.to_nat n) l).
+(* the advances that were evaluated as cycles: all but one still being tested by the run loop *)
+Definition evald (s : st) : list cyc := match ph s with PAdv _ _ => tl (cycles s) | _ => cycles s end.
+Definition cut_fact (c : cfg) (s : st) : Prop :=
+  exists a rest, cycles s = a :: rest /\ ct a = c_end c /\ c_end c <= cw a /\
+    eval_time (ctgt a) (cw a) (cprev a) <= cprev a + MIN_TD /\ run1 MAX_DRAIN rest.
+Definition Inv2 (c : cfg) (s : st) : Prop :=
+  (match ph s with PDone => True | _ => run1 (consec s) (evald s) end) /\
+  Forall exact (tl (cycles s)) /\ (cut s = false -> Forall exact (cycles s)) /\ (cut s = true -> cut_fact c s).
+
+Lemma run1_0 : forall l, run1 0 l.
+Proof. intros; unfold run1; simpl. repeat split; auto; lia. Qed.
+
+Lemma run1_succ : forall n a l, step1 a -> run1 n l -> run1 (n + 1) (a :: l).
+Proof.
+  unfold run1; intros n a l Ha (H0 & Hl & Hf). repeat split; [lia | simpl length; lia |].
+  replace (Z.to_nat (n + 1)) with (S (Z.to_nat n)) by lia. simpl. constructor; auto.
+Qed.
+
+Lemma Forall_firstn_le : forall {A} (P : A -> Prop) m n l, (m <= n)%nat -> Forall P (firstn n l) -> Forall P (firstn m l).
+Proof.
+  intros A P m; induction m as [|m IH]; intros n l Hmn H; [simpl; constructor|].
+  destruct n as [|n]; [lia|]. destruct l as [|x l]; simpl in *; [constructor|].
+  inversion H; subst. constructor; auto. apply (IH n); auto; lia.
+Qed.
+
+Lemma run1_le : forall m n l, 0 <= m -> m <= n -> run1 n l -> run1 m l.
+Proof.
+  unfold run1; intros m n l Hm Hmn (H0 & Hl & Hf). repeat split; try lia.
+  apply (Forall_firstn_le _ (Z.to_nat m) (Z.to_nat n)); auto; lia.
+Qed.
+
+Lemma do_req_frame : forall st0 s k a w1 w2 e s',
+  do_req st0 s k a w1 w2 e = Some s' ->
+  ev s' = ev s /\ push s' = push s /\ stop s' = stop s /\ consec s' = consec s /\ ph s' = ph s /\
+  notif s' = notif s /\ cycles s' = cycles s /\ cut s' = cut s /\
+  (forall p, In p (pend s) -> In p (pend s')) /\ (e <> 0 -> In e (pend s')).
+Proof.
+  intros st0 s k a w1 w2 e s' H. unfold do_req in H.
+  match type of H with (if negb ?b then _ else _) = _ => destruct b end; simpl in H; [|discriminate].
+  destruct (sched_eff st0 (ev s) k a w1 w2) as [e'|] eqn:Es.
+  - destruct (e' =? e) eqn:Ee; [|discriminate]. inv_some H. simpl. repeat split; auto.
+    + intros p Hin. apply pend_add_in; auto.
+    + intros _. apply pend_add_in. left; lia.
+  - destruct (e =? 0) eqn:Ee; [|discriminate]. inv_some H. simpl. repeat split; auto. lia.
+Qed.
+
+Lemma Inv2_init : forall c w0, Inv2 c (init c w0).
+Proof. intros; unfold Inv2, init, evald; simpl. repeat split; auto; try discriminate; try apply run1_0. Qed.
+
+Lemma Inv2_step : forall c s l s', wfc c -> Inv c s -> Inv2 c s -> gstep c s l = Some s' -> Inv2 c s'.
+Proof.
+  intros c s l s' Hw (HP & HE & HC) (H1 & H2 & H3 & H4) H.
+  destruct s as [ev0 pend0 push0 stop0 consec0 ph0 wall0 notif0 cycles0 cut0].
+  unfold gstep in H. destruct (step c _ l) as [s1|] eqn:Hs; [|discriminate].
+  unfold step in Hs. destruct (is_other l) eqn:Ho.
+  - assert (s' = s1) by (simpl in H; destruct ph0; destruct l; simpl in Ho; try discriminate; inv_some H; auto).
+    subst s1. clear H. unfold Inv2, evald, cut_fact in *; simpl in *.
+    destruct l; simpl in Ho; try discriminate; simpl in Hs.
+    + destruct (lock_held ph0); [discriminate|]. destruct stop0; inv_some Hs; simpl; auto.
+    + destruct (0 <? notif0); inv_some Hs; simpl. destruct ph0; simpl in *; auto.
+    + destruct (lock_held ph0); [discriminate|]. inv_some Hs; simpl; auto.
+    + destruct (0 <? notif0); inv_some Hs; simpl. destruct ph0; simpl in *; auto.
+  - unfold Inv2, evald, cut_fact, phase_inv in *; simpl in *.
+    destruct ph0; destruct l; simpl in Ho; try discriminate; simpl in Hs; try discriminate;
+    try (match type of Hs with do_req _ _ _ _ _ _ _ = Some _ =>
+           destruct (do_req_frame _ _ _ _ _ _ _ _ Hs) as (E1 & E2 & E3 & E4 & E5 & E6 & E7 & E8 & _);
+           simpl in *; inv_some H; rewrite E4, E5, E7, E8; simpl; auto end);
+    try (match type of Hs with (if ?b then _ else _) = _ => destruct b eqn:Eb end; try discriminate).
+    all: try solve [inv_some Hs; inv_some H; simpl; auto].
+    + (* PCheck, LAdv *)
+      destruct (t =? advance_result c _ tgt w) eqn:Et; inv_some Hs. inv_some H. simpl.
+      destruct HP as ((_ & _ & _ & Hcut) & _). simpl in Hcut. subst cut0. simpl.
+      set (s0 := mkSt ev0 pend0 push0 stop0 consec0 (PCheck tgt w locked brk) wall0 notif0 cycles0 false) in *.
+      assert (Et' : t = advance_result c s0 tgt w) by lia. clear Et.
+      unfold advance_result in Et'. specialize (H3 eq_refl).
+      split; [exact H1|]. split; [exact H3|]. split.
+      * intros Hd. rewrite Hd in Et'. constructor; auto.
+      * intros Hd. rewrite Hd in Et'. unfold drain_cut in Hd; simpl in Hd.
+        exists (mkCyc t w tgt ev0 (wake_requested s0)), cycles0. simpl.
+        split; [reflexivity|]. split; [exact Et'|]. split; [lia|]. split; [lia|].
+        apply run1_le with consec0; auto; unfold MAX_DRAIN in *; lia.
+    + (* PAdv, LEvalBegin *)
+      destruct (t0 =? t) eqn:Et; inv_some Hs. inv_some H. simpl.
+      destruct HP as (Hev & (a & rest & Hcy & Hpr) & _). subst cycles0. simpl in *.
+      split; [|tauto].
+      destruct (t =? prev + MIN_TD) eqn:E1; [|apply run1_0].
+      apply run1_succ; auto. unfold step1. lia.
+Qed.
+
+Lemma Inv2_exec : forall c ls s s', wfc c -> Inv c s -> Inv2 c s -> exec c s ls = Some s' -> Inv2 c s'.
+Proof.
+  induction ls as [|l r IH]; simpl; intros s s' Hw HI H2 H; [inv_some H; auto|].
+  destruct (gstep c s l) as [s1|] eqn:E; [|discriminate].
+  apply (IH s1 s' Hw); [eapply Inv_step; eauto | eapply Inv2_step; eauto | exact H].
+Qed.
+
+Lemma run_Inv2 : forall c w0 ls s, wfc c -> run c w0 ls s -> Inv2 c s.
+Proof. intros; eapply Inv2_exec; eauto using Inv_init, Inv2_init. Qed.
